@@ -57,6 +57,8 @@ Inductive event :=
   | Start (k : nat)             (* first segment of task k *)
   | Deliver (k : nat)           (* the message task k is trying to send is delivered *)
   | ConnFail (k : nat)          (* the connection attempt / negotiation of task k fails: state.queue() *)
+  | Begin (k : nat)             (* TR task k starts moving file data: INITIALIZING -> DOWNLOADING/UPLOADING *)
+  | Interrupt (k : nat)         (* TR task k loses the file connection mid-transfer: DOWNLOADING -> INCOMPLETE (queued-like) *)
   | Finish (k : nat)            (* TR task k runs the transfer to its end *)
   | DoneCb (k : nat)            (* the done-callback of finished task k runs *)
   | Abort | Pause | Remove      (* user calls; the event is the whole call, including the awaited cancellation *)
@@ -156,10 +158,26 @@ Definition step (f : flags) (s : st) (e : event) : st * list obs :=
       | Some (mkTask _ kd Running) => (finish_task k kd (task_queue s), [OField k])
       | _ => (s, [])
       end
+  | Begin k =>
+      match find_task s k with
+      | Some (mkTask _ TR Running) =>
+          match sstate s with
+          | Init => (with_state Transferring false s, [OField k])     (* start_transferring resets the queue vars *)
+          | _ => (s, [])
+          end
+      | _ => (s, [])
+      end
+  | Interrupt k =>
+      match find_task s k with
+      | Some (mkTask _ TR Running) =>
+          let s1 := match sstate s with Transferring => with_state Queued (srq s) s | _ => s end in
+          (finish_task k TR s1, [OField k])
+      | _ => (s, [])
+      end
   | Finish k =>
       match find_task s k with
       | Some (mkTask _ TR Running) =>
-          let s1 := match sstate s with Init | Transferring => with_state Done (srq s) s | _ => s end in
+          let s1 := match sstate s with Init | Transferring => with_state Done false s | _ => s end in
           (finish_task k TR s1, [OSend k; OField k])
       | _ => (s, [])
       end
